@@ -772,31 +772,57 @@ func parseDigitsBase(bs []*term.Term, base uint64) (val, synOK, rangeOK *term.Te
 
 func init() {
 	Stubs["strconv.ParseInt"] = func(ex *Exec, c *CallCtx) []*callResult {
-		s := c.Args[0].(StringV)
-		base, ok1 := ex.concreteInt(c.St, c.Args[1].(*term.Term), true)
-		bitSize, ok2 := ex.concreteInt(c.St, c.Args[2].(*term.Term), true)
-		if !ok1 || !ok2 {
-			abort("UNSUPPORTED", "ParseInt with symbolic base or bit size")
-		}
-		if bitSize == 0 {
-			bitSize = 64
-		}
-		if len(s.B) == 0 {
-			return c.ret(TupleV{term.Const(64, 0), ex.numError(c.St, "ParseInt", s, "ErrSyntax")})
-		}
-		j := &jsonCtx{ex, c} // byte predicates decided under the path facts
-		digits := s.B
-		neg := false
-		if j.eq(digits[0], '+') {
-			digits = digits[1:]
-		} else if j.eq(digits[0], '-') {
-			neg = true
-			digits = digits[1:]
-		}
-		b := uint64(base)
-		if base == 0 {
-			b = 10
-			if len(digits) > 1 && j.eq(digits[0], '0') {
+		return ex.parseIntStub(c, 0)
+	}
+}
+
+// parseIntStub models strconv.ParseInt; lead is 0 (unknown), 1 (first digit is '0') or 2 (it is not).
+func (ex *Exec) parseIntStub(c *CallCtx, lead int) []*callResult {
+	s := c.Args[0].(StringV)
+	base, ok1 := ex.concreteInt(c.St, c.Args[1].(*term.Term), true)
+	bitSize, ok2 := ex.concreteInt(c.St, c.Args[2].(*term.Term), true)
+	if !ok1 || !ok2 {
+		abort("UNSUPPORTED", "ParseInt with symbolic base or bit size")
+	}
+	if bitSize == 0 {
+		bitSize = 64
+	}
+	if len(s.B) == 0 {
+		return c.ret(TupleV{term.Const(64, 0), ex.numError(c.St, "ParseInt", s, "ErrSyntax")})
+	}
+	j := &jsonCtx{ex, c} // byte predicates decided under the path facts
+	digits := s.B
+	neg := false
+	if j.eq(digits[0], '+') {
+		digits = digits[1:]
+	} else if j.eq(digits[0], '-') {
+		neg = true
+		digits = digits[1:]
+	}
+	b := uint64(base)
+	if base == 0 {
+		b = 10
+		if len(digits) > 1 {
+			z := term.Eq(digits[0], term.Const(8, '0'))
+			if lead == 0 {
+				switch ex.decideCond(c.St, z) {
+				case 1:
+					lead = 1
+				case 0:
+					lead = 2
+				default:
+					// the prefix decides the base: split the state
+					var out []*callResult
+					for i, st := range ex.splitStates(c.St, []*term.Term{z, term.Not(z)}, false) {
+						if st != nil {
+							sub := &CallCtx{St: st, Fr: c.Fr, Args: c.Args, Site: c.Site, Fn: c.Fn, Name: c.Name}
+							out = append(out, ex.parseIntStub(sub, i+1)...)
+						}
+					}
+					return out
+				}
+			}
+			if lead == 1 {
 				switch {
 				case j.eq(digits[1], 'x') || j.eq(digits[1], 'X'):
 					b, digits = 16, digits[2:]
@@ -808,27 +834,27 @@ func init() {
 					b, digits = 8, digits[1:]
 				}
 			}
-			for _, d := range digits {
-				if j.is(term.Eq(d, term.Const(8, '_')), "an underscore") {
-					abort("UNSUPPORTED", "ParseInt base 0 with underscores")
-				}
+		}
+		for _, d := range digits {
+			if j.is(term.Eq(d, term.Const(8, '_')), "an underscore") {
+				abort("UNSUPPORTED", "ParseInt base 0 with underscores")
 			}
 		}
-		if b != 2 && b != 8 && b != 10 && b != 16 {
-			abort("UNSUPPORTED", "ParseInt base %d", b)
-		}
-		val, synOK, rangeOK := parseDigitsBase(digits, b)
-		lim := uint64(1) << uint(bitSize-1)
-		var res, maxV *term.Term
-		if neg {
-			rangeOK = term.And(rangeOK, term.Ule(val, term.Const(64, lim)))
-			res = term.Neg(val)
-			maxV = term.Const(64, -lim)
-		} else {
-			rangeOK = term.And(rangeOK, term.Ule(val, term.Const(64, lim-1)))
-			res = val
-			maxV = term.Const(64, lim-1)
-		}
-		return ex.parseResults(c, "ParseInt", s, res, synOK, rangeOK, maxV)
 	}
+	if b != 2 && b != 8 && b != 10 && b != 16 {
+		abort("UNSUPPORTED", "ParseInt base %d", b)
+	}
+	val, synOK, rangeOK := parseDigitsBase(digits, b)
+	lim := uint64(1) << uint(bitSize-1)
+	var res, maxV *term.Term
+	if neg {
+		rangeOK = term.And(rangeOK, term.Ule(val, term.Const(64, lim)))
+		res = term.Neg(val)
+		maxV = term.Const(64, -lim)
+	} else {
+		rangeOK = term.And(rangeOK, term.Ule(val, term.Const(64, lim-1)))
+		res = val
+		maxV = term.Const(64, lim-1)
+	}
+	return ex.parseResults(c, "ParseInt", s, res, synOK, rangeOK, maxV)
 }
